@@ -546,21 +546,35 @@ func rulesC06(c *Ctx) {
 	c.Floor("C06.bare", nTok, 80)
 	// predicates used
 	usesFirst, usesCont := false, false
-	for _, b := range inq.Blocks {
-		for _, in := range b.Instrs {
-			// called directly or taken as a function value and called later
-			for _, op := range in.Operands(nil) {
-				if fn, ok := (*op).(*ssa.Function); ok {
-					switch fn.Name() {
-					case "isIdentFirstChar":
-						usesFirst = true
-					case "isIdentChar":
-						usesCont = true
+	seenFn := map[*ssa.Function]bool{}
+	var scanPreds func(f *ssa.Function, depth int)
+	scanPreds = func(f *ssa.Function, depth int) {
+		if seenFn[f] || depth > 3 {
+			return
+		}
+		seenFn[f] = true
+		for _, b := range f.Blocks {
+			for _, in := range b.Instrs {
+				// called directly or taken as a function value and called later
+				for _, op := range in.Operands(nil) {
+					if fn, ok := (*op).(*ssa.Function); ok {
+						switch fn.Name() {
+						case "isIdentFirstChar":
+							usesFirst = true
+						case "isIdentChar":
+							usesCont = true
+						default:
+							// an unexported helper the decision was moved into
+							if fn.Pkg == f.Pkg && fn.Object() != nil && !fn.Object().Exported() {
+								scanPreds(fn, depth+1)
+							}
+						}
 					}
 				}
 			}
 		}
 	}
+	scanPreds(inq, 0)
 	c.Check(usesFirst && usesCont, "C06.bare", "IdentNeedsQuotes: uses the lexer's predicates", inq.Pos(), "the decision must use isIdentFirstChar for the first rune and isIdentChar for the rest")
 	identEntryRule(c, "C06.bare")
 	everyCharRule(c, "C06.everychar", "IdentNeedsQuotes")
